@@ -411,9 +411,10 @@ class C07(Prop):
     driver = "drv_c07"
     modelled_not_verified = [
         "pickling of signal arguments and message framing (C06); the model carries whole messages",
-        "connect_to_peer (handshake + both registrations) is one atomic model action; QMI_Context.stop is the instant "
-        "`close_all` runs",
-        "set iteration order is a choice parameter of the model (any order allowed); request ids are fresh counters",
+        "connect_to_peer (handshake + both registrations) is one atomic model action; QMI_Context.stop is two instants "
+        "(router marked inactive: sends raise at once; then `close_all` runs)",
+        "set iteration order is a choice parameter of the model (any order allowed); request ids are fresh counters; a KeyError of "
+        "_handle_subscription_reply (unknown request id) is a contained no-op",
         "receiver queues: capacity never reached in the model (the queue itself is property C09)",
         "the deterministic scheduler, the simulated network and the tap layer (harness/props/pubsub_common.py)",
     ]
